@@ -233,6 +233,7 @@ func checkC15(w *World, r *Report) {
 	checkLoaderLoops(w, r)
 	checkModTimeSources(w, r)
 	checkExistsAndRegistry(w, r)
+	checkSettersUnconditional(w, r)
 	// loaders are only appended
 	n2 := 0
 	for _, fn := range w.pkgFuncs() {
@@ -1336,4 +1337,79 @@ func checkExistsAndRegistry(w *World, r *Report) {
 		})
 	}
 	r.floor("assignments of Engine.templates", nStores, 1)
+}
+
+// checkSettersUnconditional — R15.8: a configuration switch sets what it was asked to set,
+// whatever the engine's state.  In every Engine method Set…(bool) no store into a field of the
+// engine or its environment is control dependent on a value read from the engine or environment
+// ("already in that mode"): the individual switches (SetCache, SetAutoReload) change the same
+// fields, so a remembered mode says nothing about them, and the cache/reload configuration the
+// caller asked for is silently not applied.
+func checkSettersUnconditional(w *World, r *Report) {
+	n := 0
+	readsEngineState := func(v ssa.Value) bool {
+		seen := map[ssa.Value]bool{}
+		var walk func(v ssa.Value, d int) bool
+		walk = func(v ssa.Value, d int) bool {
+			if v == nil || seen[v] || d > 8 {
+				return false
+			}
+			seen[v] = true
+			if u, ok := v.(*ssa.UnOp); ok && u.Op == token.MUL {
+				if fa, ok := u.X.(*ssa.FieldAddr); ok {
+					if t, _ := fieldOfAddr(fa); t == "Engine" || t == "Environment" {
+						return true
+					}
+				}
+			}
+			if in, ok := v.(ssa.Instruction); ok {
+				for _, op := range in.Operands(nil) {
+					if *op != nil && walk(*op, d+1) {
+						return true
+					}
+				}
+			}
+			return false
+		}
+		return walk(v, 0)
+	}
+	for _, fn := range w.pkgFuncs() {
+		if fn.Signature.Recv() == nil || !isNamed(deref(fn.Signature.Recv().Type()), twigPath, "Engine") || !strings.HasPrefix(fn.Name(), "Set") || fn.Synthetic != "" {
+			continue
+		}
+		if len(fn.Params) != 2 {
+			continue
+		}
+		if b, ok := fn.Params[1].Type().Underlying().(*types.Basic); !ok || b.Kind() != types.Bool {
+			continue
+		}
+		instrsOf(fn, func(in ssa.Instruction) {
+			st, ok := in.(*ssa.Store)
+			if !ok {
+				return
+			}
+			fa, ok := st.Addr.(*ssa.FieldAddr)
+			if !ok {
+				return
+			}
+			t, f := fieldOfAddr(fa)
+			if t != "Engine" && t != "Environment" {
+				return
+			}
+			n++
+			construct := "store " + t + "." + f + " does not depend on the previous state"
+			bad := false
+			for _, c := range controllingConds(in) {
+				if readsEngineState(c) {
+					bad = true
+				}
+			}
+			if bad {
+				r.bad("R15.8", ssaName(fn), construct, w.posOf(in.Pos()), "whether the switch writes this field depends on a value read back from the engine (a remembered mode): after the individual switches have changed the same fields the remembered mode is stale and the call returns without applying the cache / reload configuration it was asked for")
+			} else {
+				r.ok("R15.8", ssaName(fn), construct, w.posOf(in.Pos()), "controlled by the parameter only", true)
+			}
+		})
+	}
+	r.floor("field stores in the engine's boolean switches", n, 4)
 }
